@@ -8,6 +8,7 @@ for d in sorted(glob.glob('/verif/seeded/C*-m*/')):
     name = os.path.basename(d.rstrip('/'))
     m = json.load(open(d + 'meta.json'))
     title = ""
+    sup = " (superseded by a later fix, see meta.json)" if m.get('superseded') else ""
     for l in (m.get('needs') or "").split("\n"):
         l = l.strip()
         if l.startswith("#"):
@@ -21,4 +22,4 @@ for d in sorted(glob.glob('/verif/seeded/C*-m*/')):
         st = "yes (first run: %s)" % EARLY[name]
     elif m.get('retests') and sorted(first or []) != sorted(m.get('detected_by') or []):
         st = "yes (first run: %s)" % (", ".join(first) if first else "missed")
-    print("| %s | %s | %s | %s |" % (name, title.replace("|", "/")[:110], ", ".join(m.get('detected_by') or []) or "**none**", st))
+    print("| %s | %s | %s | %s |" % (name, title.replace("|", "/")[:110], (", ".join(m.get('detected_by') or []) or "**none**") + sup, st))
